@@ -23,7 +23,7 @@ use sos_sync::{
     ForceMerge, Merge, MergeOutcome, StorageEventLogs, SyncStorage,
     TrackedChanges,
 };
-use sos_vault::{Summary, Vault};
+use sos_vault::{SecretAccess, Summary, Vault};
 use std::{
     collections::HashSet,
     ops::{Deref, DerefMut},
@@ -177,6 +177,20 @@ where
             .get_mut(folder_id)
             .ok_or_else(|| StorageError::FolderNotFound(*folder_id))?;
         folder.force_merge(&diff).await?;
+
+        // The vault was rebuilt from the new events so the
+        // in-memory summary must follow its name and flags
+        let summary = {
+            let access_point = folder.access_point();
+            let access_point = access_point.lock().await;
+            access_point.vault().summary().clone()
+        };
+        self.0.set_folder_name(folder_id, summary.name(), Internal)?;
+        self.0.set_folder_flags(
+            folder_id,
+            summary.flags().clone(),
+            Internal,
+        )?;
 
         outcome.changes += len;
         outcome.tracked.add_tracked_folder_changes(
